@@ -159,7 +159,7 @@ theorem WF_openRound {e : EP} (r : OpenReq) (h : WF e) : WF (openRound e r).1 :=
         WF_insert_pending fid _ (by intro i hc; cases hc) hs.2 h
       simp only
       split
-      · exact WF_of hw rfl rfl
+      · exact WF_of h rfl rfl
       · exact WF_enqFrame _ (WF_of hw rfl rfl)
 
 theorem WF_openRejected {e : EP} (req : Nat) (final : Bool) (h : WF e) : WF (openRejected e req final).1 :=
@@ -390,7 +390,7 @@ theorem noStreams_openRound {e : EP} (r : OpenReq) (h : NoStreams e) : NoStreams
         · simp only [lookup_insert_ne _ _ _ _ hff] at hf; exact h f i hf
       simp only
       split
-      · exact key
+      · exact h
       · intro f i hf
         simp only [EP.enqFrame, enq_flows] at hf
         exact key f i hf
